@@ -57,8 +57,12 @@ theorem resolveConflict_preserves (r : Run σ) (dir : APath) (src dst : PurePath
         simp only [resolveConflict]
         have hc := hJ r dir src p h
         split
-        · rename_i heq; rw [heq] at hc; exact ⟨hc, fun _ => has⟩
-        · rename_i heq; rw [heq] at hc; exact ⟨hc, fun _ => has⟩
+        · exact ⟨h, fun _ => has⟩
+        · exact ⟨h, fun _ => has⟩
+        · exact ⟨h, fun _ => has⟩
+        · split
+          · rename_i heq; rw [heq] at hc; exact ⟨hc, fun _ => has⟩
+          · rename_i heq; rw [heq] at hc; exact ⟨hc, fun _ => has⟩
 
 theorem secondPass_preserves (strategy : Strategy) :
     ∀ (bl : List (APath × PurePath × PurePath)) (r : Run σ) (answers : List Answer),
@@ -146,7 +150,11 @@ theorem resolveConflict_preserves_all (r : Run σ) (dir : APath) (src dst : Pure
       | custom p =>
         simp only [resolveConflict]
         have hc := hJ r dir src p false h
-        split <;> (rename_i heq; rw [heq] at hc; exact hc)
+        split
+        · exact h
+        · exact h
+        · exact h
+        · split <;> (rename_i heq; rw [heq] at hc; exact hc)
 
 theorem secondPass_preserves_all (strategy : Strategy) :
     ∀ (bl : List (APath × PurePath × PurePath)) (r : Run σ) (answers : List Answer),
